@@ -1,13 +1,13 @@
 #!/bin/bash
 # usage: tools/seedconfirm.sh Cxx — confirm a sub-agent's seeded change from its DELIVERABLES only, in a fresh scratch worktree of /repo HEAD:
 # the demo passes without the patch, fails with it; the suite (guard off) passes with the patch. The scratch worktree is removed afterwards.
-id="$1"; out=/tmp/seed-out/$id; wt=/tmp/seedchk-$id
+id="$1"; out=${SEEDOUT:-/tmp/seed-out}/$id; wt=/tmp/seedchk-$id
 export GOFLAGS=-mod=mod GOPROXY=off
 git -C /repo worktree add -q --detach "$wt" HEAD || exit 2
 trap 'git -C /repo worktree remove --force "$wt"' EXIT
 cd "$wt" || exit 2
 dir=$(python3 -c "import json;print(json.load(open('$out/meta.json')).get('demo_dir','.') or '.')" 2>/dev/null)
-case "$dir" in /tmp/seed/$id*) dir=".${dir#/tmp/seed/$id}";; esac
+case "$dir" in /tmp/seed/$id*) dir=".${dir#/tmp/seed/$id}";; /tmp/seed2/$id*) dir=".${dir#/tmp/seed2/$id}";; esac
 case "$dir" in *"root"*|"vuego"|"") dir=".";; esac
 [ -d "$dir" ] || dir="."
 pkgline=$(grep -m1 '^package ' "$out/seed_demo_test.go" | awk '{print $2}')
